@@ -20,5 +20,6 @@ func init() {
 		Rule{ID: "R03f", Doc: "transport result contract (used by R01e: err == nil => message != nil)", Floor: 12, AllVariants: true, Run: r03f},
 		Rule{ID: "R20e", Doc: "a struct copied into its new owner is not released through the original", Floor: 1, AllVariants: true, Run: r20e},
 		Rule{ID: "R12e", Doc: "PopEDNS0 is a correct swap-remove (no nil record left, nothing after the OPT dropped)", Floor: 5, AllVariants: true, Run: r12e},
+		Rule{ID: "R13d", Doc: "gnet reassembly state is updated together (justifies the reviewed bound 0 <= readN <= len(buffer); shared with C13)", Floor: 10, Run: r13d},
 	)
 }
